@@ -136,6 +136,32 @@ class RawWF(_Mixin, RawExportOb):
     st = None
 
 
+class RoleWF(_Mixin, RawExportOb):
+    """multi-statement scripts in which one table may carry several roles (the chain's intermediate table is also read by a
+    bare SELECT, or first created on its own): all table names free; a statement does not read the table it writes"""
+    st = None
+
+    def __init__(self, name, stmts):
+        from lx.tree import PLACEHOLDER as _PH
+
+        self.dialect, self.stmts, self.quotes = "ansi", list(stmts), {}
+        self.sql = ";\n".join(stmts)
+        self.key = "roles/" + name
+        self.slots = list(dict.fromkeys(m.lower() for q in stmts for m in _PH.findall(q)))
+
+    def names(self, prefix="n"):
+        from lx.engine import eng, f_not
+        from lx.tree import PLACEHOLDER as _PH
+
+        n = RawExportOb.names(self, prefix)
+        for q in self.stmts:
+            sl = [m.lower() for m in _PH.findall(q)]
+            if q.startswith("INSERT") and len(sl) > 1:
+                for src in sl[1:]:
+                    eng().assume(f_not(n[sl[0]].lower()._eq(n[src].lower())))
+        return n
+
+
 RAW = {
     "path_target/sparksql": ("sparksql", "INSERT OVERWRITE DIRECTORY 'hdfs://nn/zqp1' SELECT ca, cb FROM zqt1"),
     "path_source/sparksql": ("sparksql", "INSERT INTO zqt1 SELECT ca, cb FROM parquet.`/data/zqp1`"),
@@ -170,4 +196,7 @@ def obligations(tier, seed):
             obs.append(StmtWF(k, st, 4, seed, quotes=q))
     obs += [ChainWF(n, s) for n, s in SHAPES.items()]
     obs += [RawWF(n, d, q) for n, (d, q) in RAW.items()]
+    from checks.c18 import ROLE_SCRIPTS
+
+    obs += [RoleWF(n, q) for n, q in ROLE_SCRIPTS.items()]
     return obs
